@@ -59,13 +59,13 @@ type scriptT struct {
 type table map[string][]string
 
 type obsT struct {
-	ID        int     `json:"id"`
-	Events    []evObs `json:"events"`
-	Processed []table `json:"processed"` // snapshots in the order the "hub" processed them
-	Final     table   `json:"final"`
-	FinalDup     bool `json:"finalDup"`
-	ProcessedDup bool `json:"processedDup"` // a report listed an address of a service twice
-	Diverg    string  `json:"diverg,omitempty"`
+	ID           int     `json:"id"`
+	Events       []evObs `json:"events"`
+	Processed    []table `json:"processed"` // snapshots in the order the "hub" processed them
+	Final        table   `json:"final"`
+	FinalDup     bool    `json:"finalDup"`
+	ProcessedDup bool    `json:"processedDup"` // a report listed an address of a service twice
+	Diverg       string  `json:"diverg,omitempty"`
 }
 type evObs struct {
 	E     evT   `json:"e"`
@@ -317,7 +317,9 @@ func runBad(rows []badRow, out *vh.Writer) (bad int) {
 			}
 		}
 		o := badObs{ID: r.ID, Row: r, Outcome: "ok"}
-		cr := vh.Call(3*time.Second, func() { cb(el, pick(badNames, r.Name), "host", pick(badAddrs, r.Addr), pick(badPorts, r.Port), r.Remove) })
+		cr := vh.Call(3*time.Second, func() {
+			cb(el, pick(badNames, r.Name), "host", pick(badAddrs, r.Addr), pick(badPorts, r.Port), r.Remove)
+		})
 		switch {
 		case cr.Panicked:
 			o.Outcome, o.Detail = "panic", firstLine(cr.PanicMsg)
